@@ -316,7 +316,8 @@ SPEC = PropSpec(
                  "structural: no literal-keyed lookup on the packet mapping inside the raise expressions."
                  ' R5.view: header / user-data views for 0..10 decoded items. R5.e2 / R5.e: the two end-to-end documents of C01 (selection clauses: ambiguous siblings, nested boolean criteria, conditions on raw vs calibrated operands, concrete root without a matching child).'
                  ' R5.pure: container selection keeps nothing on the definition between packets (effect analysis); R5.fresh: decoding starts at bit 0 of every packet; the nested block of the tree document is declared after its users and carries its own abstract flag; an unrecognized-packet report carries the packet object itself.'
-                 ' R5.e3: the hand-written document of R1.e3 (range and contradiction comparison lists as restriction criteria, APID 0 and 2047).'),
+                 ' R5.e3: the hand-written document of R1.e3 (range and contradiction comparison lists as restriction criteria, APID 0 and 2047).'
+                 ' Boolean attributes are read in all four xs:boolean spellings (abstract="1" / "0").'),
     rule_doc="R5.1 one obligation per steering packet (+ whole stream); R5.5 per raise site",
     assumptions=["criteria evaluation is correct (C06)", "integer decoding is correct (C03/C04)"],
     mutants=mutants,
